@@ -245,8 +245,19 @@ def _replace_self(t: Any, context_type: Type) -> Any:
     if t is self_type:
         return context_type
     t_args = get_args(t)
-    if len(t_args) > 0 and any(a is self_type for a in t_args) and hasattr(t, "copy_with"):
-        return t.copy_with(tuple(context_type if a is self_type else a for a in t_args))
+    if len(t_args) > 0:
+        # (at any depth, in `typing` aliases and in the built-in ones: `Iterable[Iterable[Self]]`,
+        # `collections.abc.Iterable[Self]`, `list[Self]`)
+        new_args = tuple(_replace_self(a, context_type) for a in t_args)
+        if any(new is not old for new, old in zip(new_args, t_args)):
+            if hasattr(t, "copy_with"):
+                return t.copy_with(new_args)
+            origin = get_origin(t)
+            if origin is not None:
+                try:
+                    return origin[new_args if len(new_args) > 1 else new_args[0]]
+                except TypeError:
+                    return t
     return t
 
 
